@@ -39,6 +39,26 @@ pub fn tier(tier: &str, only_maintenance: bool) -> Tier {
     } else {
         (instances(&bases, 1, 2), vec![1 + off, 2 + off], "bases {no maintenance; one slot x 2 tracks with binding maximalDistance; a slot overlapping/tying the trips with binding maximalDistance}: <=1 config deviation x <=2 trips; 2 hash seeds".to_string())
     };
+    // deep family (all tiers): three trips on the two maintenance bases under every cost model, demand
+    // levels {no passengers, two vehicles} - longer local-search trajectories with trade-offs between
+    // vehicle count and costs
+    {
+        let mut seen: std::collections::HashSet<Inst> = insts.iter().cloned().collect();
+        for base in [BASE1, BASE2] {
+            for costs in 0..DIMS[D_COSTS].1 {
+                let mut cfg = base;
+                cfg[D_COSTS] = costs;
+                let cat: Vec<Trip> = catalogue(&cfg).into_iter().filter(|t| t.dem == 0 || t.dem == 2).collect();
+                for trips in trip_multisets(&cat, 3) {
+                    let i = Inst { cfg, trips };
+                    if seen.insert(i.clone()) {
+                        insts.push(i);
+                    }
+                }
+            }
+        }
+    }
+    let describe = format!("{}; plus the deep family: both maintenance bases x 4 cost models x <=3 trips with demand in {{0 passengers, 2 vehicles}}", describe);
     if only_maintenance {
         insts.retain(|i| i.has_maintenance());
     }
